@@ -15,7 +15,7 @@ from vf.common import now
 
 PROPERTY = "C15"
 WORKERS = {"quick": 16, "thorough": 16}
-TIME = {"quick": 60, "thorough": 1200}
+TIME = {"quick": 60, "thorough": 240}
 BOX = {"quick": 7, "thorough": 9}
 EXHAUSTIVE = "1-D: every ordered pair of chunkings (compositions) of every n <= N (quick N=7, thorough N=9) through old_to_new and plan_rechunk under degree-limit in {2,3,100}"
 TECHNIQUE = "runtime contracts (icontract postconditions with arithmetic references) on plan_rechunk, old_to_new, merge_to_number, divide_to_width, find_merge_rechunk, find_split_rechunk, _bound_degree; exhaustive 1-D driver + random n-D driver + real rechunks"
